@@ -8,6 +8,7 @@
 //!
 //!   c14 blocks <out.ndjson>
 //!   c14 run <outdir> <tier> <seed> <shards_sample> <shards_sweep> <shards_sorted> <points.ndjson>
+//!   c14 probe <out.ndjson> <value>...      (replay: the same events for the given 32-bit values)
 //!
 //! Files written by `run`:
 //!   a.K.ndjson  sampled addresses, one event per address, with aircraft_information
@@ -79,6 +80,36 @@ fn ai_field(h: u32) -> String {
     }
 }
 
+/// Replay of a few values: one `t` (or `oor`) event each, then the returned registrations
+/// sorted by text as `s` events.
+fn probe(path: &str, values: &[String]) {
+    let mut w = BufWriter::new(File::create(path).expect("create"));
+    let mut regs: Vec<(u32, String)> = Vec::new();
+    let mut n = 0usize;
+    for v in values {
+        let h: u32 = v.parse().expect("u32 value");
+        let (kd, s) = lookup(h);
+        if h < DOMAIN {
+            writeln!(w, "{{\"e\":\"t\",\"h\":{},\"out\":\"{}\",\"reg\":{},\"ai\":{}}}",
+                     h, out_name(kd), chars(&s), ai_field(h)).unwrap();
+            if kd == 1 {
+                regs.push((h, s));
+            }
+        } else {
+            writeln!(w, "{{\"e\":\"oor\",\"hi16\":{},\"lo16\":{},\"out\":\"{}\",\"reg\":{}}}",
+                     h >> 16, h & 0xFFFF, out_name(kd), chars(&s)).unwrap();
+        }
+        n += 1;
+    }
+    regs.sort_by(|a, b| a.1.cmp(&b.1).then(a.0.cmp(&b.0)));
+    for (h, s) in &regs {
+        writeln!(w, "{{\"e\":\"s\",\"h\":{},\"reg\":{}}}", h, chars(s)).unwrap();
+        n += 1;
+    }
+    w.flush().unwrap();
+    println!("{n}");
+}
+
 fn open(dir: &str, name: &str) -> BufWriter<File> {
     BufWriter::with_capacity(1 << 20, File::create(format!("{dir}/{name}")).expect("create"))
 }
@@ -88,6 +119,9 @@ fn main() {
     let args: Vec<String> = std::env::args().skip(1).collect();
     if args[0] == "blocks" {
         return blocks(&args[1]);
+    }
+    if args[0] == "probe" {
+        return probe(&args[1], &args[2..]);
     }
     assert!(args[0] == "run");
     let dir = args[1].clone();
@@ -200,13 +234,13 @@ fn main() {
     let mut w_files = Vec::new();
     let mut n_runs = 0usize;
     if n_w > 0 {
-        // balance shards by work: a returned registration costs TLC about 10 x a None address
-        let total: u64 = kind.iter().map(|&k| if k == 0 { 1u64 } else { 10 }).sum();
+        // balance shards by work: a returned registration costs TLC about twice a None address
+        let total: u64 = kind.iter().map(|&k| if k == 0 { 1u64 } else { 2 }).sum();
         let target = total / n_w as u64 + 1;
         let mut bounds = vec![0u32];
         let mut acc = 0u64;
         for h in 0..DOMAIN {
-            acc += if kind[h as usize] == 0 { 1 } else { 10 };
+            acc += if kind[h as usize] == 0 { 1 } else { 2 };
             if acc >= target && bounds.len() < n_w {
                 bounds.push(h + 1);
                 acc = 0;
